@@ -108,38 +108,24 @@ Qed.
 
 Definition obj_of (m : mdef) : val := VObj (m_id m) (attrs_of (all_decos m)).
 Definition entry_of (m : mdef) : string * aent :=
-  (m_name m, match m_wrap m with WGetter a => a | _ => AVal (obj_of m) end).
+  (m_name m, match m_wrap m with WGetter a => a | WProperty o => AProp o | _ => AVal (obj_of m) end).
 
 Lemma forallb_app_l : forall A (f : A -> bool) a b, forallb f (a ++ b) = true -> forallb f a = true.
 Proof. intros A f a b H. rewrite forallb_app in H. now apply andb_true_iff in H as [H _]. Qed.
-
-Definition getter_ok' (m : mdef) : bool :=
-  match m_wrap m with
-  | WGetter (ARaise _) => false
-  | WGetter (AVal v) => simple_val v && match m_outer m with [] => true | _ => false end
-  | WClassMethod | WStaticMethod => match m_outer m with [] => true | _ => false end
-  | WPlain => true
-  end.
-
-Lemma getter_ok_eq : forall m, getter_ok m = getter_ok' m.
-Proof.
-  intro m. unfold getter_ok, getter_ok', getter_dom, raising_getter, no_outer.
-  destruct (m_wrap m) as [| | |[v|e]]; try reflexivity; destruct (m_outer m); cbn; try reflexivity;
-    try (now rewrite andb_true_r); try (now rewrite andb_false_r).
-Qed.
 
 Lemma build_attr_claimed : forall m, claimed_def m = true -> build_attr F m = Ok (entry_of m).
 Proof.
   intros m H. unfold claimed_def in H.
   apply andb_true_iff in H as [H _]. apply andb_true_iff in H as [H Hg]. apply andb_true_iff in H as [H _].
   apply andb_true_iff in H as [Hk _].
-  rewrite getter_ok_eq in Hg. unfold build_attr, entry_of, obj_of, attrs_of, all_decos in *. unfold getter_ok' in Hg.
-  destruct (m_wrap m) as [| | |a].
+  unfold build_attr, entry_of, obj_of, attrs_of, all_decos in *. unfold getter_ok, no_outer in Hg.
+  destruct (m_wrap m) as [| | |a|o].
   - now rewrite (apply_decos_keep _ _ _ Hk).
   - destruct (m_outer m); [|discriminate]. rewrite app_nil_r in *. now rewrite (apply_decos_keep _ _ _ Hk).
   - destruct (m_outer m); [|discriminate]. rewrite app_nil_r in *. now rewrite (apply_decos_keep _ _ _ Hk).
-  - destruct a; [|discriminate]. apply andb_true_iff in Hg as [_ Hg].
+  - destruct a; try discriminate. apply andb_true_iff in Hg as [_ Hg].
     destruct (m_outer m); [|discriminate]. rewrite app_nil_r in Hk. now rewrite (apply_decos_keep _ _ _ Hk).
+  - destruct (m_outer m); [|discriminate]. rewrite app_nil_r in Hk. now rewrite (apply_decos_keep _ _ _ Hk).
 Qed.
 
 Lemma build_table_claimed : forall cd, forallb claimed_def cd = true -> build_table F cd = Ok (map entry_of cd).
@@ -272,16 +258,22 @@ Lemma fold_left_map' : forall A B C (f : A -> C -> A) (g : B -> C) l a,
   fold_left f (map g l) a = fold_left (fun a x => f a (g x)) l a.
 Proof. intros A B C f g. induction l as [|x l IH]; intro a; [reflexivity|]. cbn. apply IH. Qed.
 
+(* isinstance(getattr(type(self), name, None), property): a property of GenericMixin, or of the class body *)
+Definition isprop (w : world) (name : string) : bool :=
+  is_property P name || match assoc name (w_attrs w) with Some (AProp _) => true | _ => false end.
+Definition skip (w : world) (name : string) : bool := String.prefix "__" name || isprop w name.
+#[local] Arguments is_property : simpl never.
+
 Section Gdf.
   Variables (w : world) (k c : nat) (oc : option val) (ms : list string) (V : string -> val).
   Hypothesis Hms : nodup_str ms = true.
   Hypothesis Htv : call_n P w no_ext (S (S (S k))) "type_var" [VInst c oc] = Ok (VEnumCls ms).
-  Hypothesis HV : forall name, In name (map fst (w_attrs w)) -> String.prefix "__" name = false ->
+  Hypothesis HV : forall name, In name (map fst (w_attrs w)) -> skip w name = false ->
      get_attr P w (call_n P w no_ext (S (S (S k)))) (VInst c oc) name = Ok (V name) /\ inert (V name) = true.
 
   Definition ostep (i : val) (I : string -> list (val * val)) : string -> list (val * val) :=
     match i with
-    | VStr name => if String.prefix "__" name then I else scan_v ms (V name) I
+    | VStr name => if skip w name then I else scan_v ms (V name) I
     | _ => I
     end.
 
@@ -308,26 +300,31 @@ Section Gdf.
     { apply (for_loop_state _ _ _ E ostep _ _) with (a := fun _ : string => @nil (val * val)) (x := (None, None, None)).
       intros i I [[an at'] dt] Hi. apply in_map_iff in Hi as (p & <- & Hp).
       assert (Hname : In (fst p) (map fst (w_attrs w))) by (apply in_map; exact Hp).
-      set (name := fst p) in *. cbn. unfold ostep.
+      set (name := fst p) in *. cbn. unfold ostep, skip.
       destruct (String.prefix "__" name) eqn:Ed; cbn.
-      - exists (Some (VStr name), at', dt). right. reflexivity.
-      - destruct (HV name Hname Ed) as [Hg Hi]. rewrite Hg. cbn.
-        pose (E2 := fun (I : string -> list (val * val)) (x : option val) =>
-           [("self", Some (VInst c oc)); ("decorator_types", Some (VEnumCls ms));
-            ("decorated_functions", Some (VDict (mkd ms I))); ("attribute_name", Some (VStr name));
-            ("attribute", Some (V name)); ("decorator_type", x)]).
-        match goal with |- context [for_loop ?b ?l ?e ?j] =>
-          assert (HL2 : exists x', for_loop b l e j = RNormal (E2 (fold_left (fun I i => istep (V name) i I) l I) x') j) end.
-        { apply (for_loop_state _ _ _ E2 (istep (V name)) _ _) with (a := I) (x := dt).
-          intros i2 I2 dt2 Hi2. apply in_map_iff in Hi2 as (t & <- & Ht). cbn.
-          rewrite (has_attr_inert _ _ _ _ Hi). exists (Some (VStr t)). left.
-          unfold istep, step_t. destruct (attr_of (V name) t) eqn:Ea; cbn.
-          - rewrite (get_attr_inert _ _ _ _ Hi), Ea. cbn.
-            rewrite (dict_get_mkd _ _ _ Ht). cbn. rewrite (dict_set_mkd _ _ _ _ Hms Ht). reflexivity.
-          - unfold E2. rewrite (mkd_ext ms I2 (upd I2 t (I2 t))); [reflexivity|]. intros t' _. unfold upd.
-            destruct (String.eqb t' t) eqn:E'; [|reflexivity]. apply String.eqb_eq in E'. now subst. }
-        destruct HL2 as [x2 HL2]. rewrite HL2. exists (Some (VStr name), Some (V name), x2). left.
-        unfold E2, E, scan_v. cbn [fst snd]. now rewrite fold_left_map'. }
+      { exists (Some (VStr name), at', dt). right. reflexivity. }
+      change (is_property P name || match assoc name (w_attrs w) with Some (AProp _) => true | _ => false end)
+        with (isprop w name).
+      destruct (isprop w name) eqn:Ep; cbn.
+      { exists (Some (VStr name), at', dt). right. reflexivity. }
+      assert (Hs : skip w name = false) by (unfold skip; now rewrite Ed, Ep).
+      destruct (HV name Hname Hs) as [Hg Hi]. rewrite Hg. cbn.
+      pose (E2 := fun (I : string -> list (val * val)) (x : option val) =>
+         [("self", Some (VInst c oc)); ("decorator_types", Some (VEnumCls ms));
+          ("decorated_functions", Some (VDict (mkd ms I))); ("attribute_name", Some (VStr name));
+          ("attribute", Some (V name)); ("decorator_type", x)]).
+      match goal with |- context [for_loop ?b ?l ?e ?j] =>
+        assert (HL2 : exists x', for_loop b l e j = RNormal (E2 (fold_left (fun I i => istep (V name) i I) l I) x') j) end.
+      { apply (for_loop_state _ _ _ E2 (istep (V name)) _ _) with (a := I) (x := dt).
+        intros i2 I2 dt2 Hi2. apply in_map_iff in Hi2 as (t & <- & Ht). cbn.
+        rewrite (has_attr_inert _ _ _ _ Hi). exists (Some (VStr t)). left.
+        unfold istep, step_t. destruct (attr_of (V name) t) eqn:Ea; cbn.
+        - rewrite (get_attr_inert _ _ _ _ Hi), Ea. cbn.
+          rewrite (dict_get_mkd _ _ _ Ht). cbn. rewrite (dict_set_mkd _ _ _ _ Hms Ht). reflexivity.
+        - unfold E2. rewrite (mkd_ext ms I2 (upd I2 t (I2 t))); [reflexivity|]. intros t' _. unfold upd.
+          destruct (String.eqb t' t) eqn:E'; [|reflexivity]. apply String.eqb_eq in E'. now subst. }
+      destruct HL2 as [x2 HL2]. rewrite HL2. exists (Some (VStr name), Some (V name), x2). left.
+      unfold E2, E, scan_v. cbn [fst snd]. now rewrite fold_left_map'. }
     destruct HL as [x' HL]. rewrite HL. reflexivity.
   Qed.
 End Gdf.
@@ -353,17 +350,17 @@ Proof.
     rewrite (IH _ _ _ Hn2 Hin). unfold upd. now rewrite E.
 Qed.
 
-Definition inner_of (V : string -> val) (t : string) (names : list string) (inner : list (val * val)) :=
-  fold_left (fun inner name => if String.prefix "__" name then inner else step_t (V name) t inner) names inner.
+Definition inner_of (sk : string -> bool) (V : string -> val) (t : string) (names : list string) (inner : list (val * val)) :=
+  fold_left (fun inner name => if sk name then inner else step_t (V name) t inner) names inner.
 
-Lemma scan_names : forall ms V t (table : list (string * aent)) I,
+Lemma scan_names : forall w ms V t (table : list (string * aent)) I,
   nodup_str ms = true -> In t ms ->
-  fold_left (fun I i => ostep ms V i I) (map (fun p : string * aent => VStr (fst p)) table) I t =
-  inner_of V t (map fst table) (I t).
+  fold_left (fun I i => ostep w ms V i I) (map (fun p : string * aent => VStr (fst p)) table) I t =
+  inner_of (skip w) V t (map fst table) (I t).
 Proof.
-  intros ms V t table. induction table as [|p table IH]; intros I Hn Hin; [reflexivity|].
+  intros w ms V t table. induction table as [|p table IH]; intros I Hn Hin; [reflexivity|].
   cbn [map fold_left]. unfold inner_of in *. cbn [fold_left]. rewrite IH by assumption. f_equal.
-  unfold ostep. destruct (String.prefix "__" (fst p)); [reflexivity|]. now apply scan_v_at.
+  unfold ostep. destruct (skip w (fst p)); [reflexivity|]. now apply scan_v_at.
 Qed.
 
 Definition is_obj (v : val) : bool := match v with VObj _ _ => true | _ => false end.
@@ -473,11 +470,11 @@ Proof.
     apply IH; [assumption|assumption|intros; eapply Hc; [right|]; eauto].
 Qed.
 
-Lemma inner_of_vals : forall V t names inner,
-  inner_of V t names inner = scan_t t (map V (filter (fun n => negb (String.prefix "__" n)) names)) inner.
+Lemma inner_of_vals : forall sk V t names inner,
+  inner_of sk V t names inner = scan_t t (map V (filter (fun n => negb (sk n)) names)) inner.
 Proof.
   unfold inner_of, scan_t. induction names as [|n names IH]; intro inner; [reflexivity|].
-  cbn [fold_left filter]. destruct (String.prefix "__" n); cbn [negb map fold_left]; apply IH.
+  cbn [fold_left filter]. destruct (sk n); cbn [negb map fold_left]; apply IH.
 Qed.
 
 (* ----- getattr(self, name) for the names dir() lists -------------------------------------------- *)
@@ -502,18 +499,19 @@ Proof.
   apply String.eqb_eq in E5. subst. reflexivity.
 Qed.
 
-Lemma get_attr_inst : forall w call c oc name, String.prefix "__" name = false ->
+Lemma get_attr_inst : forall w call c oc name, skip w name = false ->
   get_attr P w call (VInst c oc) name =
-  if reserved name then call name [VInst c oc]
-  else match assoc name (w_attrs w) with
-       | Some (AVal x) => Ok x
-       | Some (ARaise e) => Raise e
-       | None => Raise AttributeErrorC
-       end.
+  match assoc name (w_attrs w) with
+  | Some (AVal x) => Ok x
+  | Some (ARaise e) => Raise e
+  | Some (AProp o) => o
+  | None => Raise AttributeErrorC
+  end.
 Proof.
-  intros w call c oc name H. unfold get_attr.
+  intros w call c oc name H. unfold skip, isprop in H.
+  apply orb_false_iff in H as [H Hp]. apply orb_false_iff in Hp as [Hp _]. unfold get_attr.
   rewrite (dunder_neq name "__orig_class__" eq_refl H), (dunder_neq name "__orig_bases__" eq_refl H).
-  now rewrite is_property_reserved.
+  now rewrite Hp.
 Qed.
 
 Lemma assoc_entry : forall cd m, nodup_str (map m_name cd) = true -> In m cd ->
@@ -534,10 +532,8 @@ Definition gdf_at (w : world) (k c : nat) (oc : option val) : outcome val :=
 
 Definition nd (m : mdef) : bool := negb (dunder (m_name m)).
 
-Definition val_at (w : world) (e : val) (ms : list string) (name : string) : val :=
-  if String.eqb name "type_var" then VEnumCls ms
-  else if String.eqb name "type_vars" then VDict (combine [e] [VEnumCls ms])
-  else match assoc name (w_attrs w) with Some (AVal x) => x | _ => VNone end.
+Definition val_at (w : world) (name : string) : val :=
+  match assoc name (w_attrs w) with Some (AVal x) => x | _ => VNone end.
 
 Lemma claimed_parts : forall cd, claimed cd = true ->
   nodup_str (map m_name cd) = true /\
@@ -557,24 +553,43 @@ Proof.
   destruct attrs; [reflexivity|discriminate H].
 Qed.
 
-(* the value getattr hands out for the definition m, when its name is not skipped *)
-Lemma val_at_def : forall w e ms cd m,
+Definition is_wprop (m : mdef) : bool := match m_wrap m with WProperty _ => true | _ => false end.
+
+(* the value getattr hands out for the definition m *)
+Lemma val_at_def : forall w cd m,
   w_attrs w = map entry_of cd -> claimed cd = true -> In m cd ->
-  inert (val_at w e ms (m_name m)) = true /\
-  (is_method m = true -> val_at w e ms (m_name m) = obj_of m) /\
-  (is_method m = false -> forall t, attr_of (val_at w e ms (m_name m)) t = None).
+  inert (val_at w (m_name m)) = true /\
+  (is_method m = true -> val_at w (m_name m) = obj_of m) /\
+  (is_method m = false -> forall t, attr_of (val_at w (m_name m)) t = None).
 Proof.
-  intros w e ms cd m Hw Hc Hm. destruct (claimed_parts _ Hc) as [Hn Hall].
+  intros w cd m Hw Hc Hm. destruct (claimed_parts _ Hc) as [Hn Hall].
   destruct (Hall m Hm) as (_ & _ & _ & Hg & Hr). unfold val_at.
-  unfold reserved_ok, reserved in Hr.
-  destruct (String.eqb (m_name m) "type_var") eqn:E1.
-  { cbn [orb negb] in Hr. apply negb_true_iff in Hr. split; [reflexivity|]. split; [congruence|reflexivity]. }
-  destruct (String.eqb (m_name m) "type_vars") eqn:E2.
-  { cbn [orb negb] in Hr. apply negb_true_iff in Hr. split; [reflexivity|]. split; [congruence|reflexivity]. }
-  rewrite getter_ok_eq in Hg. rewrite Hw, (assoc_entry _ _ Hn Hm). unfold entry_of, is_method, getter_ok' in *. cbn [snd].
-  destruct (m_wrap m) as [| | |a]; try (split; [reflexivity|split; [reflexivity|discriminate]]).
-  destruct a as [v|]; [|discriminate Hg]. apply andb_true_iff in Hg as [Hs _].
-  destruct (simple_inert _ Hs) as [Hi Ha]. split; [exact Hi|]. split; [discriminate|intros _; exact Ha].
+  rewrite Hw, (assoc_entry _ _ Hn Hm). unfold entry_of, is_method, getter_ok in *. cbn [snd].
+  destruct (m_wrap m) as [| | |a|o]; try (split; [reflexivity|split; [reflexivity|discriminate]]).
+  - destruct a as [v| |]; try discriminate Hg. apply andb_true_iff in Hg as [Hs _].
+    destruct (simple_inert _ Hs) as [Hi Ha]. split; [exact Hi|]. split; [discriminate|intros _; exact Ha].
+  - split; [reflexivity|]. split; [discriminate|reflexivity].
+Qed.
+
+(* which definitions the scan looks at *)
+Lemma skip_def : forall w cd m,
+  w_attrs w = map entry_of cd -> claimed cd = true -> In m cd ->
+  skip w (m_name m) = dunder (m_name m) || reserved (m_name m) || is_wprop m.
+Proof.
+  intros w cd m Hw Hc Hm. destruct (claimed_parts _ Hc) as [Hn Hall]. destruct (Hall m Hm) as (_ & _ & _ & Hg & _).
+  unfold skip, isprop, dunder. rewrite is_property_reserved, Hw, (assoc_entry _ _ Hn Hm). rewrite <- orb_assoc. do 2 f_equal.
+  unfold entry_of, is_wprop, getter_ok in *. cbn [snd].
+  destruct (m_wrap m) as [| | |a|o]; try reflexivity. destruct a; try discriminate Hg; reflexivity.
+Qed.
+
+Lemma skip_method : forall w cd m,
+  w_attrs w = map entry_of cd -> claimed cd = true -> In m cd -> is_method m = true ->
+  skip w (m_name m) = dunder (m_name m).
+Proof.
+  intros w cd m Hw Hc Hm Hmeth. rewrite (skip_def w cd m Hw Hc Hm).
+  destruct (claimed_parts _ Hc) as [_ Hall]. destruct (Hall m Hm) as (_ & _ & _ & _ & Hr).
+  unfold reserved_ok in Hr. rewrite Hmeth in Hr. cbn [negb] in Hr. rewrite orb_false_r in Hr. apply negb_true_iff in Hr.
+  rewrite Hr. unfold is_wprop, is_method in *. destruct (m_wrap m); try discriminate Hmeth; now rewrite !orb_false_r.
 Qed.
 
 Lemma filter_map_comm : forall A B (f : A -> B) (p : B -> bool) l,
@@ -645,47 +660,52 @@ Section Final.
   Hypothesis Hc : claimed cd = true.
   Hypothesis Hal : alias_consistent cd.
 
-  Definition vals_of : list val := map (fun m => val_at w e ms (m_name m)) (filter nd cd).
+  Definition looked_at (m : mdef) : bool := negb (skip w (m_name m)).
+  Definition vals_of : list val := map (fun m => val_at w (m_name m)) (filter looked_at cd).
 
   Lemma type_var_enum : call_n P w no_ext (S (S (S k))) "type_var" [VInst c oc] = Ok (VEnumCls ms).
   Proof. exact (tvar_binding w k c oc [e] [VEnumCls ms] Hb). Qed.
 
-  Lemma HV_holds : forall name, In name (map fst (w_attrs w)) -> String.prefix "__" name = false ->
-     get_attr P w (call_n P w no_ext (S (S (S k)))) (VInst c oc) name = Ok (val_at w e ms name) /\
-     inert (val_at w e ms name) = true.
+  Lemma HV_holds : forall name, In name (map fst (w_attrs w)) -> skip w name = false ->
+     get_attr P w (call_n P w no_ext (S (S (S k)))) (VInst c oc) name = Ok (val_at w name) /\
+     inert (val_at w name) = true.
   Proof.
     intros name Hin Hd. rewrite Hw, map_map in Hin. apply in_map_iff in Hin as (m & <- & Hm).
     change (fst (entry_of m)) with (m_name m) in *.
-    destruct (val_at_def w e ms cd m Hw Hc Hm) as (Hi & _). split; [|exact Hi].
-    rewrite (get_attr_inst _ _ _ _ _ Hd). unfold reserved, val_at.
-    destruct (String.eqb (m_name m) "type_var") eqn:E1.
-    { apply String.eqb_eq in E1. rewrite E1. cbn [orb]. apply type_var_enum. }
-    destruct (String.eqb (m_name m) "type_vars") eqn:E2.
-    { apply String.eqb_eq in E2. rewrite E2. cbn [orb]. exact (tv_binding w k c oc [e] [VEnumCls ms] Hb). }
-    cbn [orb]. destruct (claimed_parts _ Hc) as [Hn Hall]. destruct (Hall m Hm) as (_ & _ & _ & Hg & _).
-    rewrite getter_ok_eq in Hg. rewrite Hw, (assoc_entry _ _ Hn Hm). unfold entry_of, getter_ok' in *. cbn [snd].
-    destruct (m_wrap m) as [| | |a]; try reflexivity. destruct a; [reflexivity|discriminate Hg].
+    destruct (val_at_def w cd m Hw Hc Hm) as (Hi & _). split; [|exact Hi].
+    rewrite (get_attr_inst _ _ _ _ _ Hd). unfold val_at.
+    rewrite (skip_def w cd m Hw Hc Hm) in Hd. apply orb_false_iff in Hd as [_ Hp].
+    destruct (claimed_parts _ Hc) as [Hn Hall]. destruct (Hall m Hm) as (_ & _ & _ & Hg & _).
+    rewrite Hw, (assoc_entry _ _ Hn Hm). unfold entry_of, getter_ok, is_wprop in *. cbn [snd].
+    destruct (m_wrap m) as [| | |a|o]; try reflexivity; [|discriminate Hp]. destruct a; try discriminate Hg; reflexivity.
   Qed.
 
   Lemma gdf_value : gdf_at w k c oc = Ok (VDict (mkd ms (fun t => scan_t t vals_of []))).
   Proof.
-    unfold gdf_at. rewrite (gdf_run w k c oc ms (val_at w e ms) Hms type_var_enum HV_holds).
+    unfold gdf_at. rewrite (gdf_run w k c oc ms (val_at w) Hms type_var_enum HV_holds).
     do 2 f_equal. apply mkd_ext. intros t Ht.
-    rewrite (scan_names ms _ t (w_attrs w) _ Hms Ht), inner_of_vals. f_equal.
-    unfold vals_of. rewrite Hw, map_map. change (fun x => fst (entry_of x)) with m_name.
+    rewrite (scan_names w ms _ t (w_attrs w) _ Hms Ht), inner_of_vals. f_equal.
+    unfold vals_of, looked_at. rewrite Hw, map_map. change (fun x => fst (entry_of x)) with m_name.
     rewrite filter_map_comm, map_map. reflexivity.
   Qed.
 
-  (* a scanned value that shows attribute t is the object of a method *)
+  (* a scanned value that shows attribute t is the object of a method whose name does not start with "__" *)
   Lemma vals_attr : forall j a t y, In (VObj j a) vals_of -> assoc t a = Some y ->
     exists m, In m (filter nd cd) /\ is_method m = true /\ VObj j a = obj_of m.
   Proof.
     intros j a t y Hin Ha. unfold vals_of in Hin. apply in_map_iff in Hin as (m & Hv & Hm).
-    pose proof Hm as Hm'. apply filter_In in Hm' as [Hm' _].
-    destruct (val_at_def w e ms cd m Hw Hc Hm') as (_ & Hmeth & Hnon).
-    exists m. split; [exact Hm|]. destruct (is_method m) eqn:E.
-    - split; [reflexivity|]. now rewrite <- Hv, Hmeth.
+    apply filter_In in Hm as [Hm Hl].
+    destruct (val_at_def w cd m Hw Hc Hm) as (_ & Hmeth & Hnon).
+    exists m. destruct (is_method m) eqn:E.
+    - split; [|split; [reflexivity|now rewrite <- Hv, Hmeth]].
+      apply filter_In. split; [exact Hm|]. unfold looked_at in Hl. rewrite (skip_method w cd m Hw Hc Hm E) in Hl. exact Hl.
     - specialize (Hnon eq_refl t). rewrite Hv in Hnon. cbn [attr_of] in Hnon. congruence.
+  Qed.
+
+  Lemma method_looked_at : forall m, In m (filter nd cd) -> is_method m = true -> In m (filter looked_at cd).
+  Proof.
+    intros m Hm Hmeth. apply filter_In in Hm as [Hm Hn]. apply filter_In. split; [exact Hm|].
+    unfold looked_at. rewrite (skip_method w cd m Hw Hc Hm Hmeth). exact Hn.
   Qed.
 
   Lemma nodup_types_nd : forall m, In m (filter nd cd) -> nodup_str (map d_type (all_decos m)) = true.
@@ -707,9 +727,9 @@ Section Final.
       apply in_decorated; auto using nodup_types_nd.
     - intro Hiy. destruct (decorated_in _ _ _ _ nodup_types_nd Hiy) as (m & Hm & Hmeth & -> & Hl).
       pose proof Hm as Hm'. apply filter_In in Hm' as [Hm' _].
-      destruct (val_at_def w e ms cd m Hw Hc Hm') as (_ & Hobj & _). specialize (Hobj Hmeth).
+      destruct (val_at_def w cd m Hw Hc Hm') as (_ & Hobj & _). specialize (Hobj Hmeth).
       apply get_in_pairs with (a := attrs_of (all_decos m)). apply scan_adds.
-      + unfold vals_of. apply in_map_iff. exists m. split; [exact Hobj|exact Hm].
+      + unfold vals_of. apply in_map_iff. exists m. split; [exact Hobj|now apply method_looked_at].
       + change (assoc t (attrs_of (all_decos m))) with (attr_of (obj_of m) t). now rewrite obj_attr_lookup.
       + intros a' x' Hin' Ha'. destruct (vals_attr _ _ _ _ Hin' Ha') as (m2 & Hm2 & Hmeth2 & Eo).
         unfold obj_of in Eo. inversion Eo. subst a'.
@@ -780,11 +800,3 @@ Proof.
   now rewrite (tvar_unparam w k c ts H).
 Qed.
 
-(* claimed = the domain of the statement + no property that raises *)
-Lemma claimed_split : forall cd, in_domain cd = true -> no_raising_getter cd = true -> claimed cd = true.
-Proof.
-  unfold in_domain, no_raising_getter, claimed. intros cd H Hr. apply andb_true_iff in H as [H Hn].
-  rewrite Hn, andb_true_r. rewrite forallb_forall in *. intros m Hm. specialize (H m Hm). specialize (Hr m Hm).
-  unfold in_domain_def in H. unfold claimed_def, getter_ok.
-  apply andb_true_iff in H as [H H5]. apply andb_true_iff in H as [H H4]. rewrite H, H4, Hr, H5. reflexivity.
-Qed.
